@@ -309,7 +309,17 @@ def format_template(node):
             auto += 1
             if idx >= len(node.args):
                 return None
-            args.append(norm(node.args[idx]))
+            a_ = node.args[idx]
+            if not mt.group(2) and mt.group(3) in ('', ':') and (isinstance(a_, (ast.JoinedStr, ast.BinOp)) or (isinstance(a_, ast.Constant) and isinstance(a_.value, str)) or
+                                                                  (isinstance(a_, ast.Call) and isinstance(a_.func, ast.Attribute) and a_.func.attr == 'format')):
+                # a plain placeholder filled with a string that is itself a literal / a formatted string: one template
+                sub_ = format_template(a_)
+                if sub_ is not None:
+                    out += sub_[0]
+                    args.extend(sub_[1])
+                    pos = mt.end()
+                    continue
+            args.append(norm(a_))
             out += '{%s%s}' % (mt.group(2), mt.group(3) if mt.group(3) != ':' else '')
             pos = mt.end()
         return out + txt[pos:], args
